@@ -36,6 +36,8 @@ def gen_cases(tier, seed):
     yield "every_opcode", {}
     for i in range(2000 if q else 20000):
         yield "witness_stack", {"salt": rng.getrandbits(40), "n": rng.choice([0, 0, 1, 2, 3, 5, 20]), "big": i % 40 == 0}
+    for i in range(60 if q else 900):
+        yield "cli", {"salt": rng.getrandbits(40), "witness": i % 2 == 0, "n": rng.randrange(0, 8)}
     for n in range(1, 17):
         for m in range(1, n + 1):
             yield "multisig", {"m": m, "n": n, "salt": rng.getrandbits(32)}
@@ -49,7 +51,7 @@ def gen_cases(tier, seed):
 def required(tier):
     return {"push.decided": 600, "push.class.pushdata1": 150, "push.class.pushdata2": 300, "push.class.pushdata4": 3,
             "rs.decided": 500, "ops.covered": 100, "wit.decided": 250, "wit.class.item>=253": 40, "wit.class.empty_stack": 40,
-            "tmpl.multisig": 136, "tmpl.redeem": 600, "tmpl.null_data": 81, "tmpl.simple": 300,
+            "tmpl.multisig": 136, "tmpl.redeem": 600, "tmpl.null_data": 81, "tmpl.simple": 300, "cli.scripts": 45, "cli.class.empty_witness_item": 5,
             "contract:script.minimal_push": 1000}
 
 
@@ -181,6 +183,36 @@ def run_case(kind, params, ctx):
                 ctx.violation(f"witness-parse-wrong/{cls}", "decode_script(parse=True) does not return the raw stack bytes")
         except Exception as e:
             ctx.violation(f"witness-decode-raises/{cls}", f"{type(e).__name__}: {e}")
+        return
+    if kind == "cli":
+        from . import clihelp
+        import json as _json
+        if params["witness"]:
+            items = [rand_bytes(rng, rng.choice([0, 0, 1, 33, 72, 75, 76, 253])).hex() for _ in range(params["n"])]
+            exp = rscript.witness_ser([bytes.fromhex(i) for i in items])
+            argv = ["script", "--witness"] + items
+        else:
+            items = [rand_bytes(rng, rng.choice([1, 20, 33, 75, 76, 255, 256])).hex() if rng.random() < 0.5 else rng.choice(NAMES) for _ in range(max(1, params["n"]))]
+            exp = rscript.assemble(items)
+            argv = ["script"] + items
+        ctx.count("cli.scripts")
+        ctx.nontrivial()
+        if any(a == "" for a in argv[1:]):
+            ctx.count("cli.class.empty_witness_item")
+        r = clihelp.run(argv, b"")
+        got = clihelp.parse_out(r["out"], "hex")
+        cls = ("witness" + ("+empty-item" if "" in items else "")) if params["witness"] else "script"
+        if not r["ok"] or got != exp:
+            ctx.violation(f"cli/assemble-wrong/{cls}", f"bits {' '.join(a or repr(a) for a in argv)[:160]} printed {r['out'][:60]!r} (ret {r['ret']!r}), reference {exp.hex()[:60]}")
+            return
+        if not params["witness"]:
+            r2 = clihelp.run(["script", "--decode", exp.hex()], b"")
+            try:
+                dec = _json.loads(r2["out"].decode())[0]
+            except Exception:
+                dec = None
+            if dec is None or not _same(dec, items):
+                ctx.violation("cli/disassemble-wrong/script", f"bits script --decode {exp.hex()[:60]} printed {r2['out'][:80]!r}")
         return
     if kind == "multisig":
         m, n = params["m"], params["n"]
